@@ -106,7 +106,7 @@ func showView(v tview) string {
 }
 
 func httpErrCode(err error) int {
-	if err == vegeta.ErrNoTargets {
+	if errors.Is(err, vegeta.ErrNoTargets) {
 		return 1
 	}
 	m := err.Error()
@@ -126,12 +126,12 @@ func httpErrCode(err error) int {
 }
 
 func jsonErrCode(err error) int {
-	switch err {
-	case vegeta.ErrNoTargets:
+	switch {
+	case errors.Is(err, vegeta.ErrNoTargets):
 		return 1
-	case vegeta.ErrNoMethod:
+	case errors.Is(err, vegeta.ErrNoMethod):
 		return 8
-	case vegeta.ErrNoURL:
+	case errors.Is(err, vegeta.ErrNoURL):
 		return 9
 	}
 	return 7
@@ -556,6 +556,13 @@ func runHTTP(s *kit.Summary, hc *httpCase, ncalls int) httpRunResult {
 	var atReturn, prev []tview
 	reported := map[int]bool{}
 	var parts []string
+	// the property quantifies over well-formed files: on a byte-mutated file nothing is a violation
+	// of C14 (crashes on malformed input are C16's subject); the model comparison still runs
+	real := s
+	if !hc.Legal {
+		s = kit.NewSummary("C14", 0, "")
+		defer func() { real.CountN("http:outside_domain_not_judged", s.NViol) }()
+	}
 	for c := 0; c < ncalls; c++ {
 		t := &vegeta.Target{}
 		var err error
@@ -612,6 +619,10 @@ func runHTTP(s *kit.Summary, hc *httpCase, ncalls int) httpRunResult {
 	res.line = strings.Join(parts, " | ")
 	crossCheck(s, "http_target_changed_by_later_targeter", hc)
 	remember(live, hc)
+	if !hc.Legal {
+		live = nil
+		remember(nil, hc) // targets of a malformed file are not watched any further
+	}
 	return res
 }
 
@@ -715,6 +726,7 @@ type jsonCase struct {
 	Encoded     bool                `json:"encoded"` // every line was written by NewJSONTargetEncoder
 	LongLine    int                 `json:"long_line,omitempty"`
 	SpareCap    map[string]int      `json:"spare_cap,omitempty"` // spare capacity of the default value slices
+	Mutated     bool                `json:"mutated,omitempty"`   // byte-mutated: outside the property's domain
 }
 
 func genJSONTarget(r *kit.Rng, i int, broken bool) vegeta.Target {
@@ -1006,6 +1018,12 @@ func runJSON(s *kit.Summary, jc *jsonCase, ncalls int, r *kit.Rng) jsonRunResult
 	var atReturn []tview
 	reported := false
 	var parts []string
+	// outside the domain (byte-mutated file) nothing is judged; the model comparison still runs
+	real := s
+	if jc.Mutated {
+		s = kit.NewSummary("C14", 0, "")
+		defer func() { real.CountN("json:outside_domain_not_judged", s.NViol) }()
+	}
 	for c := 0; c < ncalls; c++ {
 		t := &vegeta.Target{}
 		var err error
@@ -1041,6 +1059,9 @@ func runJSON(s *kit.Summary, jc *jsonCase, ncalls int, r *kit.Rng) jsonRunResult
 	res.line = strings.Join(parts, " | ")
 	crossCheck(s, "json_target_changed_by_later_targeter", jc)
 	remember(live, jc)
+	if jc.Mutated {
+		remember(nil, jc)
+	}
 	return res
 }
 
@@ -1535,6 +1556,7 @@ func runC14(c *run.Ctx, s *kit.Summary) {
 			if i >= len(specialJ) && jc.LongLine == 0 && r.Chance(0.15) {
 				jc.Src = gen.Mutate(r, jc.Src)
 				jc.Legal = false
+				jc.Mutated = true
 			}
 			if jc.LongLine > 0 {
 				s.Count(fmt.Sprintf("json:line_length~%d", jc.LongLine))
@@ -1582,7 +1604,9 @@ func runC14(c *run.Ctx, s *kit.Summary) {
 					}
 				}
 				ra.Add(jsonOp(&jc, "c14.json.readall", -1), line)
-				oracleReadAll(s, "json", &jc, res.codes, res.returned, tgts, err, jsonErrCode)
+				if !jc.Mutated {
+					oracleReadAll(s, "json", &jc, res.codes, res.returned, tgts, err, jsonErrCode)
+				}
 			}
 			if jc.Legal && i%5 == 2 {
 				m := 2*len(jc.Targets) + 1
@@ -1880,12 +1904,21 @@ func runGlue(c *run.Ctx, s *kit.Summary, gc glueCase, id int) {
 		}
 		return ""
 	}
+	// lazily the file's order; eagerly a rotation over the same list (its start is not prescribed)
+	off := 0
+	if !gc.Lazy && len(got) > 0 {
+		for o := range want {
+			if match(got[0], want[o]) == "" {
+				off = o
+			}
+		}
+	}
 	for i, g := range got {
 		if gc.Lazy && i >= len(want) {
 			bad = fmt.Sprintf("lazy mode: %d requests for %d targets (a stream target was delivered again)", len(got), len(want))
 			break
 		}
-		if m := match(g, want[i%len(want)]); m != "" {
+		if m := match(g, want[(i+off)%len(want)]); m != "" {
 			bad = fmt.Sprintf("request %d: %s", i, m)
 			break
 		}
@@ -1895,7 +1928,7 @@ func runGlue(c *run.Ctx, s *kit.Summary, gc glueCase, id int) {
 		case gc.Lazy && len(got) != len(want):
 			bad = fmt.Sprintf("lazy mode: %d requests for %d targets", len(got), len(want))
 		case gc.Lazy && timedOut:
-			bad = "lazy mode: the attack did not end after the last target"
+			s.Skipped["glue:lazy_run_timed_out"]++ // no verdict from a run that had to be killed
 		case !gc.Lazy && len(got) <= len(want):
 			bad = fmt.Sprintf("eager mode: only %d requests in 300ms at 100/s over %d targets (no rotation); stderr: %s", len(got), len(want), tail(stderr.String(), 300))
 		}
@@ -2000,9 +2033,19 @@ func oracleSelection(s *kit.Summary, format string, input interface{}, exp []tvi
 		if bad == "" && len(eagerC) == 0 {
 			bad = "eager selection failed: " + eagerLine
 		}
+		// eagerly: the same list in rotation; where the rotation starts is not prescribed
+		off := -1
+		for o := 0; o < n && off < 0 && len(eagerC) > 0; o++ {
+			if eagerC[0] == 0 && eqView(eagerV[0], exp[o]) {
+				off = o
+			}
+		}
+		if bad == "" && len(eagerC) > 0 && off < 0 {
+			bad = "eager draw 0 is none of the described targets"
+		}
 		for j := 0; j < len(eagerC) && bad == ""; j++ {
-			if eagerC[j] != 0 || !eqView(eagerV[j], exp[j%n]) {
-				bad = fmt.Sprintf("eager draw %d is not target %d mod %d", j, j, n)
+			if eagerC[j] != 0 || !eqView(eagerV[j], exp[(j+off)%n]) {
+				bad = fmt.Sprintf("eager draw %d is not the successor of draw %d in the rotation over the %d targets", j, j-1, n)
 			}
 		}
 	}
